@@ -114,7 +114,8 @@ def run_case(case, wd, max_points=None):
     H.rmtree(wd)
     os.makedirs(wd)
     busjson = clicase.produce_bus(case, wd)
-    bus = [(i + 1, EPOCH + datetime.timedelta(seconds=10 * (i + 1)), d) for i, d in enumerate(busjson)]
+    # (bus timestamps off the whole second, as on a real bus)
+    bus = [(i + 1, EPOCH + datetime.timedelta(seconds=10 * (i + 1), microseconds=500000), d) for i, d in enumerate(busjson)]
     its, ki, outs, drain = plan_of(case, len(bus))
     init_it = {"limit": 2, "now": 0, "faults": True}
     rng = random.Random(case["kseed"] ^ 0x9e3779b9)
@@ -298,7 +299,10 @@ def final_verdict(res, p):
     if fin["exc"]:
         problems.append("the client keeps raising: " + fin["exc"][-160:])
     if reference_is_healthy(res):
-        strip = lambda ds: {t: {k: {a: v for a, v in o.items() if a != clicase.TS} if not t.startswith("trashbin_") else o
+        # (a trashbin timestamp is stored in the cache files with whole seconds: compared at that precision)
+        whole = lambda v: v.replace(microsecond=0) if isinstance(v, datetime.datetime) else v
+        strip = lambda ds: {t: {k: {a: v for a, v in o.items() if a != clicase.TS} if not t.startswith("trashbin_")
+                                else {a: (whole(v) if a == clicase.TS else v) for a, v in o.items()}
                                 for k, o in objs.items()} for t, objs in ds.items()}
         for name in ("remotedata", "localdata"):
             if canon(strip(fin[name])) != canon(strip(ref[name])):
